@@ -202,13 +202,13 @@ pub fn run(ctx: &Ctx) -> i32 {
     menu.extend(unsupported_reps());
     menu.push(Expr::Test(Test::False));
     menu.push(Expr::Test(Test::True));
-    let maxn = ctx.tier.pick(3, 4);
+    let maxn = ctx.tier.pick(4, 4);
     for n in 2..=maxn {
         let shapes = trees::shapes(n);
         let total = trees::count(n, menu.len() as u64);
         acc = acc.merge(par_cases(total, |i, acc| {
             let t = trees::nth(&shapes, n, &menu, i);
-            if n <= 2 {
+            if n <= ctx.tier.pick(2, 3) {
                 for v in negation_variants(&t) {
                     check(&v, acc);
                 }
